@@ -257,6 +257,7 @@ EDGE_SHAPES = [(1, 1, [1]), (1, 1, [1, 1]), (2, 1, [1, 2]), (3, 1, [1, 3, 2]), (
 # what float16 adds to the tolerances (bilinear weights, the grid and the ramp are rounded to 11 bits)
 DT_POS = {"float32": 0.0, "float64": 0.0, "float16": 0.03}
 DT_REL = {"float32": 1e-5, "float64": 1e-5, "float16": 2.0 ** -7}
+DT_EPS = {"float32": EPS32, "float64": Fraction(1, 2 ** 52), "float16": Fraction(1, 2 ** 10)}
 DT_RANGE = {"float32": Fraction(1, 2 ** 18), "float64": Fraction(1, 2 ** 18), "float16": Fraction(1, 2 ** 8)}
 
 
@@ -293,7 +294,7 @@ class C08(PropertyCheck):
         self.streams = {"cases_exact": 0, "cases_tolerance": 0, "cases_with_tie": 0, "cases_oracle": 0,
                         "mask_exact": 0, "mask_tie": 0, "warp_exact": 0, "warp_tolerance": 0,
                         "apply_exact": 0, "apply_tolerance": 0, "grid_tolerance": 0,
-                        "params_cases": 0, "grid_rows": 0}
+                        "params_cases": 0, "grid_frames": 0}
 
     # ------------------------------------------------------------------ generators
     def _draws(self, rng, cfg, N, style):
@@ -715,8 +716,7 @@ class C08(PropertyCheck):
         if not obs.get("rand_ok") or len(obs["elems"]) != case["N"]:
             return None
         N = case["N"]
-        eps = {"float32": EPS32, "float64": Fraction(1, 2 ** 52), "float16": Fraction(1, 2 ** 10)}[
-            case.get("dtype", "float32")]
+        eps = DT_EPS[case.get("dtype", "float32")]
         cfg = dict(case["cfg"])
         cfg["eps"] = frac_str(eps)
         items = []
@@ -762,6 +762,7 @@ class C08(PropertyCheck):
             mp = [float(F_(self._raw_pos(g, impl["Tg"]))) for g in m["grid"]]
             bad = [(j, a, b) for j, (a, b) in enumerate(zip(impl["pos"][i], mp)) if not (abs(a - b) <= tol)]
             self.streams["grid_tolerance"] += 1
+            self.streams["grid_frames"] += len(mp)
             if len(mp) != len(impl["pos"][i]):
                 out.append(f"row {i}: grid has {len(impl['pos'][i])} frames, the model {len(mp)}")
             elif bad:
@@ -1005,8 +1006,12 @@ class C08(PropertyCheck):
                 c0, sh = F_(p[key][0]), F_(p[key][1])
                 W = min(mx, Fraction(size, 2))
                 tol = Fraction(size, 2 ** 21)
-                if not (W - tol <= c0 <= size - W + tol):
-                    fails.append((f"elem {n}: {key} centre {float(c0)} outside [W, size-W], W={float(W)} size={size}", None))
+                # the half-window is (size/2 - eps).clamp(0, max) with the machine epsilon of the FEATURE dtype
+                # (2^-10 for float16 features: visibly narrower than size/2); |shift| <= W is checked against
+                # the upper bound min(max, size/2) of every admissible window
+                Wlo = min(mx, max(Fraction(size, 2) - DT_EPS[case.get("dtype", "float32")], Fraction(0)))
+                if not (Wlo - tol <= c0 <= size - Wlo + tol):
+                    fails.append((f"elem {n}: {key} centre {float(c0)} outside [W, size-W], W={float(Wlo)} size={size}", None))
                 if not (abs(sh) <= W + tol):
                     fails.append((f"elem {n}: {key} shift {float(sh)} exceeds W={float(W)}", None))
                 if not (-tol <= c0 + sh <= size + tol):
